@@ -4,8 +4,8 @@
 (* A case is a tuple c of NCols column values (method/path, header sets, body lengths,  *)
 (* write chunkings, declared lengths, trailers, handler order, client read pattern,     *)
 (* parallel streams, cold/warm connection, SETTINGS of both sides).  Case(c) makes it   *)
-(* concrete (real sizes derived from the negotiated frame size and windows), and        *)
-(* Expect(...) is the specification's oracle: what the handler must observe and what     *)
+(* concrete (real sizes derived from the negotiated frame size and windows), and its       *)
+(* exp field is the specification's oracle: what the handler must observe and what         *)
 (* the client must receive, after the documented normalisation:                          *)
 (*   - field names arrive in canonical MIME form (they are lower-cased on the wire),      *)
 (*   - values of one name keep their order, values are byte-exact,                        *)
